@@ -73,5 +73,7 @@ if old.get("results"):
 vc = subprocess.run("git -C /verif rev-parse --short HEAD", shell=True, capture_output=True, text=True).stdout.strip()
 meta = {"verif_commit": vc, "history": hist, "property": a.pid, "name": a.name, "needs_to_manifest": "see notes.md", "confirmed": {k: res.get(k) for k in ("demo_clean_exit", "demo_mutant_exit", "suite_unchanged", "suite_failed")},
         "ran": [f"./check {c} --no-evidence (with patch applied to /repo, then reverted)" for c in checks], "results": res["checks"], "caught_by": res["caught_by"]}
+if old.get("decision"):
+    meta["decision"] = old["decision"]
 json.dump(meta, open(os.path.join(dst, "meta.json"), "w"), indent=1)
 print(json.dumps(res, indent=1))
